@@ -697,6 +697,33 @@ class ExprMixin:
             raise Unsupported("comprehension element kind", e)
         ek = elt.kind
         et = self.to_term(elt, ek)
+        if not sub.top.eq(st.top):
+            # the element expression allocated (one symbolic evaluation stands for every index)
+            from .solve import _mentions
+
+            def consts_of(t):
+                out, todo, seen = [], [t], set()
+                while todo:
+                    x = todo.pop()
+                    if x.get_id() in seen:
+                        continue
+                    seen.add(x.get_id())
+                    if z3.is_const(x) and x.decl().kind() == z3.Z3_OP_UNINTERPRETED:
+                        out.append(x)
+                    todo.extend(x.children())
+                return out
+
+            tops = consts_of(st.top) + consts_of(sub.top)
+            if any(_mentions(et, c_) for c_ in tops):
+                # the element IS an object allocated by the element expression: every index would get the same address
+                raise Unsupported("comprehension over a symbolic range whose element expression constructs objects", e)
+            # allocations by callees: nobody holds their addresses; advance the allocation pointer past all of them
+            ntop = fresh("ctop", I)
+            st.assume(ntop >= st.top)
+            if z3.is_const(sub.top):
+                facts = [z3.substitute(f, (sub.top, ntop)) for f in facts]
+            st.top = ntop
+        et = self.to_term(elt, ek)
         guard = z3.And(0 <= k, k < n)
         # adopt heap changes made by oracle calls (e.g. rng ghost) -- only ghost havoc is allowed
         if sub.sig() != base_sig:
@@ -754,18 +781,20 @@ class ExprMixin:
         """Evaluate e on st, merging forks into ite-terms; the evaluation must not change the heap (except
         ghost effects of oracle calls when allow_oracle)."""
         sig = st.sig()
+        base = len(st.pc)  # BEFORE the evaluation: a fork may continue in `st` itself and append its branch condition there
         outs = list(self.ev(e, st))
         if len(outs) == 1 and outs[0][1] is st:
             if st.sig() != sig and not allow_oracle:
                 raise Unsupported("impure expression where a pure one is required", e)
             return outs[0][0]
-        # merge forks
+        # merge forks: each outcome is guarded by the facts its path added (branch conditions and what was learned on it)
         conds = []
-        base = len(st.pc)
         branches = []
         for v, s in outs:
-            delta = s.pc[base:] if s is not st else []
+            delta = s.pc[base:]
             branches.append((z3.And(delta) if delta else z3.BoolVal(True), v, s))
+        if sum(1 for c_, _v, _s in branches if z3.is_true(c_)) > 1:
+            raise Unsupported("cannot merge forked outcomes of a pure expression (no distinguishing path facts)", e)
         kinds = [v.kind for _, v, _ in branches]
         k0 = kinds[0]
         for kk in kinds[1:]:
